@@ -47,6 +47,10 @@ pub struct Case {
   w: u32,
   shared_sched: bool,
   steps: Vec<Step>,
+  /// throttle with a duration selector: items with an even value open a
+  /// window of `w2` ms, the others one of `w` ms
+  #[serde(default)]
+  w2: Option<u32>,
 }
 
 pub struct C09;
@@ -56,8 +60,8 @@ type Exp = Vec<(Ev, u64)>;
 
 /// Reference model. `tie(i)` = at an exact tie before source event `i`, did the
 /// timer side go first?
-fn model(op: &ROp, w: u64, t_sub: u64, evs: &[(u64, Ev)], tie: &dyn Fn(usize) -> bool, t_end: u64) -> Exp {
-  model_h(op, w, t_sub, evs, tie, &|_| false, t_end)
+fn model(op: &ROp, w: u64, w2: Option<u64>, t_sub: u64, evs: &[(u64, Ev)], tie: &dyn Fn(usize) -> bool, t_end: u64) -> Exp {
+  model_h(op, w, w2, t_sub, evs, tie, &|_| false, t_end)
 }
 
 /// `hybrid(i)` (thread mode only): source event `i` and the window timer fall
@@ -65,7 +69,13 @@ fn model(op: &ROp, w: u64, t_sub: u64, evs: &[(u64, Ev)], tie: &dyn Fn(usize) ->
 /// as the window's last one, the timer delivers it, and the item still finds
 /// the window closed and opens the next one. Nothing is lost, duplicated or
 /// reordered by that, and the statement does not order the two.
-fn model_h(op: &ROp, w: u64, t_sub: u64, evs: &[(u64, Ev)], tie: &dyn Fn(usize) -> bool, hybrid: &dyn Fn(usize) -> bool, t_end: u64) -> Exp {
+/// `w2`: throttle with a duration selector - windows opened by an item with an
+/// even value last `w2` instead of `w`.
+fn model_h(op: &ROp, w: u64, w2: Option<u64>, t_sub: u64, evs: &[(u64, Ev)], tie: &dyn Fn(usize) -> bool, hybrid: &dyn Fn(usize) -> bool, t_end: u64) -> Exp {
+  let wv = |v: &Val| match (w2, v) {
+    (Some(x), Val::I(i)) if i % 2 == 0 => x,
+    _ => w,
+  };
   let mut out: Exp = Vec::new();
   let before = |deadline: u64, t: u64, i: usize| deadline < t || (deadline == t && tie(i));
   match op {
@@ -117,14 +127,14 @@ fn model_h(op: &ROp, w: u64, t_sub: u64, evs: &[(u64, Ev)], tie: &dyn Fn(usize) 
           if we == *t && tailing && hybrid(i) {
             out.push((Ev::Next(v.clone()), we));
             trailing = None;
-            window_end = Some(t + w);
+            window_end = Some(t + wv(v));
             continue;
           }
         }
         match e {
           Ev::Next(v) => {
             if window_end.is_none() {
-              window_end = Some(t + w);
+              window_end = Some(t + wv(v));
               if leading {
                 out.push((Ev::Next(v.clone()), *t));
               } else {
@@ -250,7 +260,9 @@ impl Scenario for C09 {
       };
       steps.push(Step { gap, ev, timer_first: rng.chance(1, 2) });
     }
-    serde_json::to_value(Case { op, w, shared_sched: rng.chance(1, 3), steps }).unwrap()
+    let is_throttle = matches!(op, ROp::ThrottleLeading | ROp::ThrottleTailing | ROp::ThrottleAll);
+    let w2 = if is_throttle && rng.chance(1, 4) { Some(*rng.pick(&[0u32, 1, 3, 7])) } else { None };
+    serde_json::to_value(Case { op, w, shared_sched: rng.chance(1, 3), steps, w2 }).unwrap()
   }
 
   fn run(&self, case: &Value) -> Result<Outcome, String> {
@@ -270,9 +282,20 @@ impl Scenario for C09 {
         let src = hot.clone();
         let b: Box<dyn std::any::Any> = match case.op {
           ROp::Debounce => Box::new(src.debounce(dur, s).actual_subscribe(p)),
-          ROp::ThrottleLeading => Box::new(src.throttle_time(dur, ThrottleEdge::leading(), s).actual_subscribe(p)),
-          ROp::ThrottleTailing => Box::new(src.throttle_time(dur, ThrottleEdge::tailing(), s).actual_subscribe(p)),
-          ROp::ThrottleAll => Box::new(src.throttle_time(dur, ThrottleEdge::all(), s).actual_subscribe(p)),
+          ROp::ThrottleLeading | ROp::ThrottleTailing | ROp::ThrottleAll => {
+            let edge = match case.op {
+              ROp::ThrottleLeading => ThrottleEdge::leading(),
+              ROp::ThrottleTailing => ThrottleEdge::tailing(),
+              _ => ThrottleEdge::all(),
+            };
+            match case.w2 {
+              None => Box::new(src.throttle_time(dur, edge, s).actual_subscribe(p)),
+              Some(w2) => {
+                let d2 = Duration::from_millis(w2 as u64);
+                Box::new(src.throttle(move |v: &Val| if matches!(v, Val::I(i) if i % 2 == 0) { d2 } else { dur }, edge, s).actual_subscribe(p))
+              }
+            }
+          }
           ROp::Sample => Box::new(src.sample_threads(observable::interval(dur, s).on_error_map(|_| 0)).actual_subscribe(p)),
           ROp::BufferTime => Box::new(src.buffer_with_time(dur, s).map(Val::L).actual_subscribe(p)),
           ROp::BufferCountTime(c) => Box::new(src.buffer_with_count_and_time(c, dur, s).map(Val::L).actual_subscribe(p)),
@@ -284,6 +307,7 @@ impl Scenario for C09 {
     let t_sub = wd.now();
     wd.run_ready_fifo(100);
     let w_ns = case.w as u64 * MS;
+    let w2_ns = case.w2.map(|x| x as u64 * MS);
     let mut evs: Vec<(u64, Ev)> = Vec::new();
     let mut ties: Vec<usize> = Vec::new(); // indices of source events that hit a deadline exactly
     // events at an instant whose timers have already been fired (a second source
@@ -426,7 +450,7 @@ impl Scenario for C09 {
           Some(_) => case.steps[i].timer_first,
           None => forced.contains(&i),
         };
-        let exp = model(&case.op, w_ns, t_sub, &evs, &tie_fn, t_end);
+        let exp = model(&case.op, w_ns, w2_ns, t_sub, &evs, &tie_fn, t_end);
         if mask == 0 {
           first_exp = exp.iter().map(|(e, t)| format!("{}@{}", fmt_ev(e), t / MS)).collect::<Vec<_>>().join(" ");
         }
@@ -670,7 +694,7 @@ impl Scenario for C09Threads {
       let mut first_exp = String::new();
       for mask in 0..(1u32 << nt) {
         let tie_fn = |i: usize| i < nt && mask & (1 << i) != 0;
-        let exp = model(&case.op, w_ns, t_sub, &evs, &tie_fn, t_end);
+        let exp = model(&case.op, w_ns, None, t_sub, &evs, &tie_fn, t_end);
         if mask == 0 {
           first_exp = exp.iter().map(|(e, t)| format!("{}@{}", fmt_ev(e), t / MS)).collect::<Vec<_>>().join(" ");
         }
@@ -687,7 +711,7 @@ impl Scenario for C09Threads {
             }
             let tie_fn = |i: usize| i < nt && mask & (1 << i) != 0;
             let hy_fn = |i: usize| i < nt && hmask & (1 << i) != 0;
-            let exp = model_h(&case.op, w_ns, t_sub, &evs, &tie_fn, &hy_fn, t_end);
+            let exp = model_h(&case.op, w_ns, None, t_sub, &evs, &tie_fn, &hy_fn, t_end);
             if exp.len() == recs.len() && exp.iter().zip(recs.iter()).all(|((e, tmin), r)| *e == r.ev && r.t >= *tmin) {
               explained = true;
               break 'outer;
